@@ -14,6 +14,12 @@ func (e *FilterExec) Explain() string {
 }
 
 func (e *FilterExec) Filter(kvp KVPair, ctx *ExecuteCtx) (bool, error) {
+	// The per-row field cache must only hold values computed from this row:
+	// a scan filters many rows per Next call and the previous (rejected)
+	// row's field values must not be reused.
+	if ctx != nil {
+		ctx.Clear()
+	}
 	ret, err := e.filterBatch([]KVPair{kvp}, ctx)
 	if err != nil {
 		return false, err
